@@ -17,8 +17,9 @@
       `if`/`else`, conditional and endless `for`, block-local declarations with the compiler's cell
       release discipline): `compile_correct : compile_correct_full`, for every program that obeys
       Go's scoping rule, every register width ≥ 1, environment and fuel.  PARTIAL with respect to the
-      property: functions, goroutines, channels, `select`/`switch`, `break`/`continue`, `:=`, `for`
-      init/post are outside the model; `je` has the meaning the compiler relies on.
+      property: functions with arguments, channels, `select`/`switch`, `:=` are outside the model;
+      `je` has the meaning the compiler relies on.  `break`, `continue` and three-clause `for` are
+      covered by `compile_correct_x` (same statement for `compileXP` / `goEvalX`).
 -/
 import BMV.Proofs.BondgoProto
 import BMV.Proofs.Bondgo
@@ -323,5 +324,81 @@ theorem alloc_inv_placement (p : Prog) (h : scopedProg p = true) : wfProg p = tr
 /-- **`compile_correct`**: the full statement holds for the modelled subset. -/
 theorem compile_correct : compile_correct_full :=
   fun env w fuel p code hw hs hc => compile_correct_wf env w hw fuel p code hc (alloc_inv_placement p hs)
+
+/-! ### `break`, `continue`, three-clause `for` (`compileX`, `execX`) -/
+
+/-- The simulation lemma with loop labels.  `compileX` gets the addresses of the innermost loop's
+    exit (`lb`) and continue point (`lc`); `execX` says how the statement ended.  For every way of
+    ending other than running out of fuel the machine reaches: the instruction after the statement
+    (`ok`), the loop's exit label (`break`), its continue label (`continue`) — `exitPc` — in a state
+    that agrees with the source on the variables in scope (`exitLive`: what the statement declared
+    stays in scope only if it fell through), with equal outputs.  The `for` cases: a `continue` or a
+    normal end of the body both arrive at the continue point (the post clause, or the back jump), a
+    `break` arrives behind the back jump; the post clause is compiled with the labels of the
+    enclosing loop.  Labels are computed beforehand from `codeLen`, which is the length of the code
+    (`compileX_length`). -/
+theorem stmt_simulation_labels (env : Nat → Nat → Nat) (w : Nat) (hw : 0 < w) (ls : List Loc) (fuel : Nat) (st : Stmt)
+    (lb lc : Nat) (live : List Nat) (base : Nat) (busy : List Nat) (c : List Instr) (busy' : List Nat)
+    (hc : compileX ls lb lc st base busy = some (c, busy')) (hwf : wfS ls st live = true)
+    (hvr : VarRegsIn ls busy) (hinj : LiveInj ls live)
+    (pre post : List Instr) (cfg : Cfg) (s : Src) (hb : base = pre.length) (hpc : cfg.pc = pre.length)
+    (hag : AgreeL ls live cfg s) (ho : cfg.outs = s.outs) (hnt : (execX env w fuel st s).2 ≠ .timeout) :
+    ∃ cfg', Reaches env w (pre ++ c ++ post) cfg cfg' ∧
+      cfg'.pc = exitPc (execX env w fuel st s).2 (pre.length + c.length) lb lc ∧
+      AgreeL ls (exitLive (execX env w fuel st s).2 live st) cfg' (execX env w fuel st s).1 ∧
+      cfg'.outs = (execX env w fuel st s).1.outs :=
+  stmtOKX_all env w hw ls fuel st lb lc live base busy c busy' hc hwf hvr hinj pre post cfg s hb hpc hag ho hnt
+
+/-- … and when the fuel runs out: the outputs written so far are written by the machine -/
+theorem stmt_simulation_labels_timeout (env : Nat → Nat → Nat) (w : Nat) (hw : 0 < w) (ls : List Loc) (fuel : Nat)
+    (st : Stmt) (lb lc : Nat) (live : List Nat) (base : Nat) (busy : List Nat) (c : List Instr) (busy' : List Nat)
+    (hc : compileX ls lb lc st base busy = some (c, busy')) (hwf : wfS ls st live = true)
+    (hvr : VarRegsIn ls busy) (hinj : LiveInj ls live)
+    (pre post : List Instr) (cfg : Cfg) (s : Src) (hb : base = pre.length) (hpc : cfg.pc = pre.length)
+    (hag : AgreeL ls live cfg s) (ho : cfg.outs = s.outs) (hto : (execX env w fuel st s).2 = .timeout) :
+    ∃ cfg', Reaches env w (pre ++ c ++ post) cfg cfg' ∧ cfg'.outs = (execX env w fuel st s).1.outs :=
+  stmtTOX_all env w hw ls fuel st lb lc live base busy c busy' hc hwf hvr hinj pre post cfg s hb hpc hag ho hto
+
+/-- the length of the code does not depend on labels or allocator state -/
+theorem compileX_code_length (ls : List Loc) (st : Stmt) (lb lc base : Nat) (busy : List Nat) (c : List Instr)
+    (busy' : List Nat) (h : compileX ls lb lc st base busy = some (c, busy')) : c.length = codeLen ls st :=
+  compileX_length ls st lb lc base busy c busy' h
+
+/-- the full statement for the language with `break` / `continue` / post clauses: as
+    `compile_correct_full`, for `compileXP` / `goEvalX`, for programs in which `break` / `continue`
+    occur inside loops only (the real compiler rejects the others) -/
+def compile_correct_full_x : Prop :=
+  ∀ (env : Nat → Nat → Nat) (w fuel : Nat) (p : Prog) (code : List Instr),
+    0 < w → scopedProg p = true → noStray p.body = true → compileXP p = some code →
+    ∃ n, (runCode env w code n).1 = (goEvalX env w fuel p).1 ∧
+         ((goEvalX env w fuel p).2 = true → (runCode env w code n).2 = true)
+
+/-- **`compile_correct_x`**: it holds. -/
+theorem compile_correct_x : compile_correct_full_x :=
+  fun env w fuel p code hw hs hns hc =>
+    compileX_prefix env w hw fuel p code hc (alloc_inv_placement p hs) hns
+
+/-! non-vacuity: a three-clause loop with `continue` (the post clause must still run) followed by an
+    endless loop left by `break` -/
+def demoBreak : Prog :=
+  { decls := [false, false],
+    body := .seq (.loopP (.eq (.var 1) (.lit 0))
+        (.seq (.ifThen (.eq (.var 0) (.lit 2)) (.seq .cont .skip))
+          (.seq (.iowrite 0 (.var 0)) (.seq (.ifThen (.eq (.var 0) (.lit 5)) (.seq (.assign 1 (.lit 1)) .skip)) .skip)))
+        (.inc 0))
+      (.seq (.loop none (.seq (.inc 0) (.seq (.ifThen (.eq (.var 0) (.lit 9)) (.seq .brk .skip)) .skip)))
+        (.seq (.iowrite 0 (.lit 99)) .skip)) }
+
+example : scopedProg demoBreak = true ∧ noStray demoBreak.body = true ∧ wfProg demoBreak = true ∧
+    ((compileXP demoBreak).map List.length) = some 48 := by decide
+
+example : runCode (fun _ _ => 0) 8 ((compileXP demoBreak).getD []) 400
+    = ([(0, 0), (0, 1), (0, 3), (0, 4), (0, 5), (0, 99)], true) := by decide
+
+example (env : Nat → Nat → Nat) (fuel : Nat) :
+    ∃ n, (runCode env 8 ((compileXP demoBreak).getD []) n).1 = (goEvalX env 8 fuel demoBreak).1 := by
+  have hc : compileXP demoBreak = some ((compileXP demoBreak).getD []) := by decide
+  obtain ⟨n, h, _⟩ := compile_correct_x env 8 fuel demoBreak _ (by decide) (by decide) (by decide) hc
+  exact ⟨n, h⟩
 
 end BMV.Props.C12
